@@ -12,6 +12,19 @@ import sys
 HERE = os.path.dirname(os.path.dirname(os.path.abspath(__file__)))
 
 EMPHASIS = {
+    'perf': ("This round is about PERFORMANCE OPTIMISATIONS GONE WRONG: each change must read like a speed-up a maintainer would be proud of - memoising a matrix, a "
+             "boundary term, a mean or a metric factor per object / per shape / per id(); skipping work when 'nothing changed' according to a flag, a hash, an `is` test or "
+             "an array comparison; preallocated work buffers reused between calls; in-place arithmetic (`+=`, `out=`) on arrays that may belong to the caller; views "
+             "instead of copies; early returns for zero / uniform / scalar coefficients; vectorised index arithmetic replacing loops; building a sparse matrix from "
+             "cached index arrays; lazy evaluation. The optimisation must be exactly neutral for the textbook call sequence and go wrong only when the assumption it "
+             "silently makes (nothing was edited in place, the grid is the same object, the shape identifies the grid, the coefficient is still what it was, the result is "
+             "consumed before the next call, N is the same along all axes) does not hold."),
+    'refactor': ("This round is about DE-DUPLICATION REFACTORS GONE WRONG: the library repeats nearly identical code per grid class (1D/2D/3D x Cartesian / cylindrical / polar / "
+                 "spherical). Each change must read like a clean-up that merges several per-grid variants into one generic helper (or makes one variant call another), "
+                 "where ONE detail of ONE variant is lost or generalised wrongly: a metric factor (r, r^2, sin(theta), 1/r) evaluated at the cell instead of the face or "
+                 "missing for one axis, an axis order, a reshape / broadcasting axis, the ghost-cell width taken from the wrong end, a sign on the high side, an index "
+                 "range valid only when Nx == Ny, a periodic branch that existed for one grid only, a dtype. All other grid classes and the uniform / symmetric cases the "
+                 "test-suite exercises must give bit-identical or rounding-identical results."),
     'variables': ("This round is about the VARIABLE CLASSES THEMSELVES (CellVariable, FaceVariable, TrackedArray, BoundaryFace, the location containers): properties and "
                   "setters (value, xvalue/rvalue/..., a/b/c, periodic), the labelled coordinate access of the grid's coordinate system, constructors in all their documented "
                   "forms, copy(), update_value(), apply_BCs(), domainIntegral(), plotprofile(), the dirty-flag bookkeeping, and the operators. Each change must be "
